@@ -119,7 +119,8 @@ def msgP : P String := do
   if (← get) ≠ [] then failure
   if !protoOK proto || typ > 255 then failure
   match psh with
-  | some p => if proto != protocolIPv6ICMP || p.length != 40 then failure
+  | some p =>
+    if (proto == protocolIPv6ICMP && p.length != 40) || (proto != protocolIPv6ICMP && p.length > 64) then failure
   | none => pure ()
   let m : Msg := { proto := proto, typ := typ, code := code, cksum := 0, body := body }
   match m.marshal psh with
@@ -129,7 +130,7 @@ def msgP : P String := do
       | none => "perr"
       | some pm => showMsg pm
     -- verification value: checksum over (pseudo-header ++) wire; 0 means valid
-    let v := match psh with
+    let v := match (if proto == protocolIPv6ICMP then psh else none) with
       | some p => checksum (copyAt p 32 (be32 (wire.length : Nat)) ++ wire)
       | none => checksum wire
     pure s!"ok {hexOfBytes wire} {v} {back}"
